@@ -103,6 +103,11 @@ func dmaRun(j dmaJob) *trace.Scenario {
 			m.O.Corrupt()
 			sc.Ev = append(sc.Ev, []any{"t", a, v})
 		}
+		// a restart may have come late: let the last transfer finish before OAM is read out
+		for t := 0; t < 170; t++ {
+			m.Hardware()
+			sc.Ev = append(sc.Ev, []any{"tk"})
+		}
 		all := make([]int, 160)
 		snap := m.O.VerifSnapshot()
 		for i := range all {
